@@ -7,7 +7,7 @@ import os
 from .. import AnalysisError
 from ..absint import Evaluator, Unsupported
 from ..flow import show, walk_term
-from ..report import ob_ok, ob_fail, VERIF
+from ..report import ob_ok, ob_fail, ob_undecided, VERIF
 from .common import is_call, method_call, elem_of, strip_wrappers, guards_of, enclosing_loops, need
 from . import tables
 
@@ -281,6 +281,40 @@ def tok_rules(repo, tier="quick"):
                       reason="atom letters are copied unchanged")) if good else
      obs.append(ob_fail("TOK.T0-conservation", fi, T.branches[bare][2], construct="bare atom appends %s" % [a[1] if isinstance(a[1], str) else ast.unparse(a[1]) for a in apps],
                         instance="bare-atom", reason="a bare atom is not copied to the cleaned text exactly as consumed")))
+    # two-letter elements: the look-ahead set must not contain a pair that is also `organic atom + aromatic atom`
+    ORGANIC_UPPER = set("BCNOPSFI")
+    AROMATIC_LOWER = set("bcnops")
+    look = None
+    for st in body:
+        for sub in ast.walk(st):
+            if isinstance(sub, ast.Compare) and len(sub.ops) == 1 and isinstance(sub.ops[0], ast.In) and isinstance(sub.left, ast.BinOp) and \
+                    isinstance(sub.left.op, ast.Add) and isinstance(sub.left.left, ast.Name) and sub.left.left.id == T.token and "peek" in ast.unparse(sub.left.right):
+                look = sub
+    if look is None:
+        obs.append(ob_undecided("TOK.T3-atom", fi, T.branches[bare][2], construct="two-letter element look-ahead", instance="bare:two-letter",
+                                reason="cannot find the `token + iter.peek() in <two-letter elements>` test"))
+    else:
+        cont = look.comparators[0]
+        try:
+            lit = ast.literal_eval(cont)
+        except Exception:
+            lit = None
+        if lit is not None and all(isinstance(x, str) for x in lit):
+            amb = sorted(x for x in lit if len(x) == 2 and x[0] in ORGANIC_UPPER and x[1] in AROMATIC_LOWER)
+            (obs.append(ob_fail("TOK.T3-atom", fi, look, construct="two-letter elements %s" % sorted(lit), instance="bare:two-letter",
+                                reason="%s can also be an upper-case atom followed by an aromatic atom (as in `CSc1ccccc1`): the atom counter runs one behind from there on"
+                                % amb)) if amb else
+             obs.append(ob_ok("TOK.T3-atom", fi, look, construct="two-letter elements %s" % sorted(lit), instance="bare:two-letter",
+                              reason="no listed element can be confused with `organic atom + aromatic atom`")))
+        else:
+            ct = fl.canon(cont, cfg.owner[id(look)]) if id(look) in cfg.owner else None
+            if ct is not None and ct[0] == "ext" and ct[1].endswith("PTE"):
+                obs.append(ob_fail("TOK.T3-atom", fi, look, construct="two-letter elements looked up in %s" % ct[1], instance="bare:two-letter",
+                                   reason="the whole periodic table contains Sc, Cn, Sn, Co, Cs, Nb, No, Os, Pb, Po, Np, In, Sb: an upper-case atom followed "
+                                          "by an aromatic atom (`Sc1ccccc1`) is swallowed as one element and the atom counter runs one behind"))
+            else:
+                obs.append(ob_undecided("TOK.T3-atom", fi, look, construct="two-letter elements from %s" % ast.unparse(cont), instance="bare:two-letter",
+                                        reason="the look-ahead set is not a literal"))
     # bracket atom: annotations stored under the pre-increment counter, not appended
     stores = []
     for st in aarm:
